@@ -593,6 +593,7 @@ def main():
         if "twin" in h["flags"]:
             kf = open_kf[h["kf"]]
             if r["status"] == "counterexample":
+                log(f"  known-finding twin {h['name']} still fails: " + "; ".join(f"{f['cls']}: {f['desc'][:90]} @ {f['loc'][:80]}" for f in r["failed"][:2]))
                 kf_lines.append(f"KNOWN-FINDING: property={prop} {kf['what']} [{kf['id']}]")
                 r["status"] = "known-finding-confirmed"
             elif r["status"] == "discharged":
